@@ -272,11 +272,17 @@ func decodeValue(dec valueDecoder, param string, sm *openapi3.SerializationMetho
 		var value any
 		var err error
 		for _, sr := range schema.Value.AllOf {
+			var v any
 			var f bool
-			value, f, err = decodeValue(dec, param, sm, sr, required)
+			v, f, err = decodeValue(dec, param, sm, sr, required)
 			found = found || f
-			if value == nil || err != nil {
+			if err != nil {
+				value = v
 				break
+			}
+			// a branch without a type (constraints only) decodes to no value: keep what a typed branch gave
+			if v != nil {
+				value = v
 			}
 		}
 		return value, found, err
